@@ -421,18 +421,79 @@ class C30(Prop):
                 if i["bind"] and i["item"] is not None and i["bind"]["quote"] is None
                 and i["bind"]["prefix"] is not None and c["job"].get(i["name"])}
 
+    # The known argv classes, and how each one transforms the reference argv into what StreamFlow's tool receives.
+    # A case may show several of them at once; signature() accepts a difference only if it is explained COMPLETELY by
+    # the classes the case can exhibit, and names -- among the classes actually used -- one that is not listed in
+    # known/C30.txt first (so an unlisted class is never hidden behind a listed one).
+    ARGV_CLASSES = ("bound-items-array-prefix-unquoted", "item-and-array-binding-quoted-twice", "item-binding-order")
+
+    def _known_sigs(self):
+        if not hasattr(self, "_ks"):
+            from harness.lib.framework import load_known
+            self._ks = {k[0] for k in load_known(self.ID)[0]}
+        return self._ks
+
+    def _explain_argv(self, c, ra, sa):
+        """set of known classes that together turn ra (cwltool) into sa (StreamFlow), or None"""
+        arrs = [i for i in c["inputs"] if i["item"] is not None and c["job"].get(i["name"])]
+        prefixes = [i["bind"]["prefix"] for i in arrs if i["bind"] and i["bind"]["quote"] is None
+                    and i["bind"]["prefix"] is not None and not _safe(i["bind"]["prefix"])]
+        twice = any(i["bind"] is not None and i["bind"]["quote"] is not None and (not c["shell"] or i["bind"]["quote"])
+                    for i in arrs)
+        order_ok = any(i["bind"] is None for i in arrs)      # only item-only arrays are ordered differently
+        used = set()
+        exp = list(ra)
+        for p in prefixes:       # the array's own prefix reaches sh unquoted
+            if p not in exp:
+                return None
+            if re.fullmatch(r"[\w@%+=:,./ \t-]*", p):
+                words = p.split()                              # blanks split it
+            elif re.fullmatch(r"\$[A-Za-z_][A-Za-z0-9_]*", p):
+                words = []                                     # an unset variable expands to nothing
+            else:
+                return {"bound-items-array-prefix-unquoted"}   # quotes, ;, ... : the rest of the line is the shell's business
+            k = exp.index(p)
+            exp[k:k + 1] = words
+            used.add("bound-items-array-prefix-unquoted")
+        if len(exp) != len(sa):
+            return None
+
+        def same(r, a):
+            if r == a:
+                return 0
+            if twice and shlex.quote(r) == a:
+                return 1
+            return None
+
+        seq = [same(r, a) for r, a in zip(exp, sa)]
+        if all(x is not None for x in seq):
+            if any(seq):
+                used.add("item-and-array-binding-quoted-twice")
+            return used or None
+        if not order_ok:
+            return None
+        rest, requoted = list(exp), 0
+        for a in sa:
+            m = next((r for r in rest if same(r, a) == 0), None)
+            if m is None:
+                m = next((r for r in rest if same(r, a) == 1), None)
+                if m is None:
+                    return None
+                requoted += 1
+            rest.remove(m)
+        used.add("item-binding-order")
+        if requoted:
+            used.add("item-and-array-binding-quoted-twice")
+        return used
+
     def signature(self, c, o, clause):
-        """oracle clause + the class of input that explains it.  The two known argv classes are accepted only when
-        the observation is explained by them: array-unquoted = the FIRST argument that differs from the reference is
-        a piece of an array bound without shellQuote that is not shell-safe (everything after an unquoted
-        metacharacter is the shell's business); item-binding-order = same arguments, other order."""
+        """oracle clause + the class of input that explains the observation; `<clause>/other` = not explained."""
         ref, sf = o.get("ref", {}), o.get("sf", {})
         if clause in ("argv", "sf-fails") and "argv" in ref:
             dec = lambda a: a.encode("latin-1").decode("utf-8", "replace")
             ra = [dec(a) for a in ref["argv"]]
             sa = [dec(a) for a in sf["argv"]] if "argv" in sf else None
-            pieces = self._array_pieces(c)
-            hostile = {p for p in pieces if not _safe(p)}
+            hostile = {p for p in self._array_pieces(c) if not _safe(p)}
             raw_items = {_repr(x) for i in c["inputs"] if c["shell"] and i["bind"] and i["item"] is None
                          and i["type"].endswith("[]") and i["bind"]["quote"] is False and i["bind"]["isep"] is None
                          and not i["bind"]["vf"] for x in (c["job"].get(i["name"]) or [])}
@@ -445,32 +506,15 @@ class C30(Prop):
                 k = 0
                 while k < min(len(ra), len(sa)) and ra[k] == sa[k]:
                     k += 1
-                if k < len(ra) and ra[k] in hostile:
-                    return "argv/bound-items-array-prefix-unquoted"
                 # ShellCommandRequirement + shellQuote: false written on an ARRAY's binding: cwltool still quotes the items
                 # (they are bound one by one with a fresh binding), StreamFlow leaves them unquoted as asked
                 if k < len(ra) and ra[k] in raw_items and not _safe(ra[k]):
                     return "argv/array-shellquote-false-items"
-                # bindings on array items: same arguments in another order (cwltool's key starts with the item index),
-                # and/or -- with a binding on the array that quotes -- items that arrive quoted a second time
-                if any(i["item"] is not None for i in c["inputs"]) and len(ra) == len(sa):
-                    twice = any(i["item"] is not None and i["bind"] is not None and i["bind"]["quote"] is not None
-                                and (not c["shell"] or i["bind"]["quote"]) for i in c["inputs"])
-                    rest, requoted = list(ra), 0
-                    for a in sa:
-                        if a in rest:
-                            rest.remove(a)
-                        else:
-                            m = next((r for r in rest if twice and shlex.quote(r) == a), None)
-                            if m is None:
-                                break
-                            rest.remove(m)
-                            requoted += 1
-                    else:
-                        return "argv/item-and-array-binding-quoted-twice" if requoted else "argv/item-binding-order"
-                # an unquoted array prefix over bound items together with the item order: anything can follow
-                if any(p in ra for p in hostile) and any(p not in sa for p in hostile):
-                    return "argv/bound-items-array-prefix-unquoted"
+                used = self._explain_argv(c, ra, sa)
+                if used:
+                    ordered = [x for x in self.ARGV_CLASSES if x in used]
+                    unlisted = [x for x in ordered if f"argv/{x}" not in self._known_sigs()]
+                    return "argv/" + (unlisted or ordered)[0]
         return f"{clause}/other"
 
     # ---------------------------------------------------------------- model side
